@@ -65,3 +65,9 @@ package js_printer
 // of the line (`a / /b/.exec(s)` minified to `a//b/.exec(s)`). The space that prevents this has nothing to do with
 // inline <script> support and must not depend on that feature switch (only the `</script` half of the test does).
 //@ guarded slash-before-regexp-is-always-separated C01: func=(*printer).printExpr ; in=js_printer ; site=call print ; when-arg=1:" " ; only-under=true:expr.Data.(ERegExp) ; scenario=regex_after_slash_no_inline_script ; forbid=false:call Has(p.options.UnsupportedFeatures,*)
+
+// C16 (no internal error): printIdentifier -> QuoteIdentifier panics ("Cannot encode identifier") for a name with a
+// non-BMP code point when the output must be ASCII and the target has no \u{...} escapes. An export/import ALIAS may
+// have been written as a string literal (ModuleExportName : IdentifierName | StringLiteral), so the parser's
+// representability check never saw it; choosing identifier syntax for it must itself rule that combination out.
+//@ guarded alias-printed-as-identifier-is-representable C16: func=(*printer).printClauseAlias ; in=js_printer ; site=call printIdentifier ; scenario=export_string_alias_nonbmp ; require-any=false:p.options.ASCIIOnly || false:call Has(p.options.UnsupportedFeatures,*) || false:call ContainsNonBMPCodePoint(*)
